@@ -236,6 +236,10 @@ def one_model(ctx, prog, script, rng):
 
 
 def _rejection(ctx, m, t, kw, exc, label, script, n):
+    if ctx.counters.get("rejections_checked", 0) % 2:
+        # the period (and its neighbours) already carry a solution record from an earlier call: "changes nothing" includes it
+        rec.plain(m, 'status')[:] = ['.', 'F', 'S', 'E'][ctx.counters.get("rejections_checked", 0) // 2 % 4]
+        rec.plain(m, 'iterations')[:] = 7
     before = snapshot(m)
     case = {'script': script, 'n': n, 't': t, 'rejection': label, 'kwargs': kw}
     ctx.evaluation((script, n, t, label), nontrivial=True)
